@@ -33,10 +33,22 @@ type sessCfg struct {
 }
 
 type linkCfg struct {
-	Cipher string `json:"cipher"` // "" = nil BlockCrypt
-	D      int    `json:"fec_d"`
-	P      int    `json:"fec_p"`
-	UDPAddr bool  `json:"udp_addr"` // *net.UDPAddr endpoints (else string-compared addresses)
+	Cipher  string `json:"cipher"` // "" = nil BlockCrypt
+	D       int    `json:"fec_d"`
+	P       int    `json:"fec_p"`
+	UDPAddr bool   `json:"udp_addr"` // *net.UDPAddr endpoints (else string-compared addresses)
+	// SrvFEC: the listener side uses (SD, SP) instead of (D, P) (C16: mismatch;
+	// 0/0 = FEC disabled at that end)
+	SrvFEC bool `json:"server_fec_differs,omitempty"`
+	SD     int  `json:"server_fec_d,omitempty"`
+	SP     int  `json:"server_fec_p,omitempty"`
+}
+
+func (l linkCfg) serverFEC() (int, int) {
+	if l.SrvFEC {
+		return l.SD, l.SP
+	}
+	return l.D, l.P
 }
 
 func randomSessCfg(rng *vrng) sessCfg {
@@ -80,7 +92,8 @@ func (l linkCfg) overhead() int {
 	default:
 		o += 20
 	}
-	if l.D > 0 && l.P > 0 {
+	sd, sp := l.serverFEC()
+	if (l.D > 0 && l.P > 0) || (sd > 0 && sp > 0) {
 		o += 8
 	}
 	return o
@@ -97,14 +110,14 @@ func (c sessCfg) mtu() int {
 // per-session monitor
 
 type sessMon struct {
-	w        *sessWorld
-	name     string
-	s        *UDPSession
-	mtuNow   atomic.Int64 // session MTU in force (as accepted by SetMtu)
-	admits   atomic.Int64
-	outputs  atomic.Int64
-	zeroAdv  atomic.Int64
-	armed    atomic.Bool
+	w       *sessWorld
+	name    string
+	s       *UDPSession
+	mtuNow  atomic.Int64 // session MTU in force (as accepted by SetMtu)
+	admits  atomic.Int64
+	outputs atomic.Int64
+	zeroAdv atomic.Int64
+	armed   atomic.Bool
 }
 
 func (m *sessMon) admitted(k *KCP, newSegs int) {
@@ -197,24 +210,25 @@ func (m *sessMon) occupancy() {
 // world
 
 type sessWorld struct {
-	rec   *vrec
-	desc  any
-	hub   *simHub
-	link  linkCfg
-	key   []byte
-	t     *testing.T
+	rec  *vrec
+	desc any
+	hub  *simHub
+	link linkCfg
+	key  []byte
+	t    *testing.T
 
-	mu       sync.Mutex
-	flows    map[string]*wireFlow
-	mons     []*sessMon
-	conns    []*simConn
-	sessions []*UDPSession
-	lconn    *simConn
-	listener *Listener
-	laddr    net.Addr
-	nviol    atomic.Int64
-	bubbleID string
-	snmp0    *Snmp
+	mu           sync.Mutex
+	flows        map[string]*wireFlow
+	mons         []*sessMon
+	conns        []*simConn
+	sessions     []*UDPSession
+	lconn        *simConn
+	listener     *Listener
+	laddr        net.Addr
+	nviol        atomic.Int64
+	bubbleID     string
+	snmp0        *Snmp
+	cleanUntilMs int64
 }
 
 func (w *sessWorld) viol(key, format string, args ...any) {
@@ -249,7 +263,7 @@ func newSessWorld(t *testing.T, rec *vrec, desc any, link linkCfg, keySeed uint6
 		f := w.flows[from.String()+">"+to.String()]
 		w.mu.Unlock()
 		if f != nil {
-			f.observe(data)
+			f.observe(data, nowMs)
 		}
 	}
 	w.snmp0 = DefaultSnmp.Copy()
@@ -279,7 +293,8 @@ func (w *sessWorld) listen() *Listener {
 	w.laddr = w.addr(1, 4000)
 	w.lconn = w.hub.listen(w.laddr)
 	w.conns = append(w.conns, w.lconn)
-	l, err := ServeConn(w.block(), w.link.D, w.link.P, w.lconn)
+	sd, sp := w.link.serverFEC()
+	l, err := ServeConn(w.block(), sd, sp, w.lconn)
 	if err != nil {
 		panic(err)
 	}
@@ -309,8 +324,12 @@ func (w *sessWorld) watch(s *UDPSession, name string, from, to net.Addr, cfg ses
 	m := &sessMon{w: w, name: name, s: s}
 	m.mtuNow.Store(int64(cfg.mtu()))
 	m.attach()
-	wc := wireCfg{name: name, spec: cipherByName(w.link.Cipher), key: w.key, fec: w.link.D > 0 && w.link.P > 0, d: w.link.D, p: w.link.P,
-		conv: s.GetConv(), mtu: func() int { return int(m.mtuNow.Load()) }, stream: stream}
+	fd, fp := w.link.D, w.link.P
+	if s.l != nil {
+		fd, fp = w.link.serverFEC()
+	}
+	wc := wireCfg{name: name, spec: cipherByName(w.link.Cipher), key: w.key, fec: fd > 0 && fp > 0, d: fd, p: fp,
+		conv: s.GetConv(), mtu: func() int { return int(m.mtuNow.Load()) }, stream: stream, cleanUntilMs: w.cleanUntilMs}
 	f := newWireFlow(wc, func(key, detail string) {
 		w.nviol.Add(1)
 		w.rec.violation(key, fmt.Sprintf("t=%dms ", w.hub.nowMs())+detail, w.desc)
@@ -449,28 +468,28 @@ func (w *sessWorld) leakCheck() {
 // application transfers with the content oracle
 
 type xfer struct {
-	w      *sessWorld
-	name   string
-	from   *UDPSession
-	to     *UDPSession
-	stream uint64
-	total  int
-	wsizes []int // cyclic write sizes
-	rsizes []int // cyclic read-buffer sizes
-	vec    bool  // use WriteBuffers with several slices
+	w       *sessWorld
+	name    string
+	from    *UDPSession
+	to      *UDPSession
+	stream  uint64
+	total   int
+	wsizes  []int // cyclic write sizes
+	rsizes  []int // cyclic read-buffer sizes
+	vec     bool  // use WriteBuffers with several slices
 	msgMode bool
 	mss     int
 
-	started atomic.Uint64 // bytes handed to Write calls that have started
-	written atomic.Uint64 // bytes of Write calls that returned
-	read    atomic.Uint64
-	reads   atomic.Int64
-	chunks  []int // message lengths as the peer must see them (message mode)
-	chunkMu sync.Mutex
-	werr, rerr error
+	started      atomic.Uint64 // bytes handed to Write calls that have started
+	written      atomic.Uint64 // bytes of Write calls that returned
+	read         atomic.Uint64
+	reads        atomic.Int64
+	chunks       []int // message lengths as the peer must see them (message mode)
+	chunkMu      sync.Mutex
+	werr, rerr   error
 	doneW, doneR chan struct{}
-	pauseAt   int           // reader pauses once after this many bytes
-	pauseFor  time.Duration
+	pauseAt      int // reader pauses once after this many bytes
+	pauseFor     time.Duration
 }
 
 func (x *xfer) start() {
@@ -629,20 +648,22 @@ func sessProgress(s *UDPSession) string {
 // the standard two-way transfer scenario
 
 type sessScenario struct {
-	Case    int64      `json:"case"`
-	Part    string     `json:"part"`
-	Link    linkCfg    `json:"link"`
-	CfgC    sessCfg    `json:"client"`
-	CfgS    sessCfg    `json:"server"`
-	Net     netProfile `json:"net"`
-	BytesCS int        `json:"bytes_client_to_server"`
-	BytesSC int        `json:"bytes_server_to_client"`
-	WSizes  []int      `json:"write_sizes"`
-	RSizes  []int      `json:"read_sizes"`
-	Vec     bool       `json:"writebuffers"`
-	Clock   uint32     `json:"clock_offset"`
-	LimitMs int64      `json:"limit_ms"`
-	CloseOrder []string `json:"close_order,omitempty"`
+	Case       int64      `json:"case"`
+	Part       string     `json:"part"`
+	Link       linkCfg    `json:"link"`
+	CfgC       sessCfg    `json:"client"`
+	CfgS       sessCfg    `json:"server"`
+	Net        netProfile `json:"net"`
+	BytesCS    int        `json:"bytes_client_to_server"`
+	BytesSC    int        `json:"bytes_server_to_client"`
+	WSizes     []int      `json:"write_sizes"`
+	RSizes     []int      `json:"read_sizes"`
+	Vec        bool       `json:"writebuffers"`
+	Clock      uint32     `json:"clock_offset"`
+	LimitMs    int64      `json:"limit_ms"`
+	CloseOrder []string   `json:"close_order,omitempty"`
+	PauseAt    int        `json:"reader_pause_after,omitempty"` // server-side reader pauses once after this many bytes
+	PauseMs    int        `json:"reader_pause_ms,omitempty"`
 }
 
 func genSessScenario(rng *vrng, idx int64, part string) sessScenario {
@@ -712,18 +733,28 @@ func genSessScenario(rng *vrng, idx int64, part string) sessScenario {
 }
 
 type sessResult struct {
-	completed bool
-	w         *sessWorld
-	xs        []*xfer
-	client    *UDPSession
-	server    *UDPSession
-	fecRecovered uint64
-	nontrivial   bool
-	endMs        int64
+	completed        bool
+	w                *sessWorld
+	xs               []*xfer
+	client           *UDPSession
+	server           *UDPSession
+	fecRecovered     uint64
+	maxRunC, maxRunS int // longest uninterrupted run of FEC ids emitted by client / server in the clean phase
+	nontrivial       bool
+	endMs            int64
 }
 
 // runSessScenario must be called inside a fresh bubble.
-func runSessScenario(t *testing.T, rec *vrec, sc *sessScenario, rng *vrng, hooks func(w *sessWorld, client, server *UDPSession)) sessResult {
+type sessHooks struct {
+	pre  func(w *sessWorld, client *UDPSession)         // before any traffic
+	post func(w *sessWorld, client, server *UDPSession) // both sessions up, transfers started
+	end  func(w *sessWorld, client, server *UDPSession) // transfers finished (or limit hit), before Close
+}
+
+func runSessScenario(t *testing.T, rec *vrec, sc *sessScenario, rng *vrng, hooks *sessHooks) sessResult {
+	if hooks == nil {
+		hooks = &sessHooks{}
+	}
 	netRng := newRng(rng.u64())
 	pf := sc.Net.fate(netRng)
 	laddrS := ""
@@ -735,6 +766,7 @@ func runSessScenario(t *testing.T, rec *vrec, sc *sessScenario, rng *vrng, hooks
 		return pf(dir, nth, now, data)
 	}
 	w := newSessWorld(t, rec, sc, sc.Link, uint64(sc.Case), fate)
+	w.cleanUntilMs = int64(sc.Net.LossyFrom)
 	refTime = time.Now().Add(-time.Duration(sc.Clock) * time.Millisecond)
 	yieldMode.Store(1)
 	l := w.listen()
@@ -749,7 +781,11 @@ func runSessScenario(t *testing.T, rec *vrec, sc *sessScenario, rng *vrng, hooks
 	client.mu.Lock()
 	mssC := int(client.kcp.mss)
 	client.mu.Unlock()
-	x1 := &xfer{w: w, name: "client->server", from: client, stream: streamCS, total: sc.BytesCS, wsizes: sc.WSizes, rsizes: sc.RSizes, vec: sc.Vec, msgMode: !sc.CfgC.Stream, mss: mssC}
+	if hooks.pre != nil {
+		hooks.pre(w, client)
+	}
+	x1 := &xfer{w: w, name: "client->server", from: client, stream: streamCS, total: sc.BytesCS, wsizes: sc.WSizes, rsizes: sc.RSizes, vec: sc.Vec, msgMode: !sc.CfgC.Stream, mss: mssC,
+		pauseAt: sc.PauseAt, pauseFor: time.Duration(sc.PauseMs) * time.Millisecond}
 	// the first datagram creates the server session; Accept it, configure it
 	x1.doneW, x1.doneR = make(chan struct{}), make(chan struct{})
 	go x1.writer()
@@ -774,8 +810,8 @@ func runSessScenario(t *testing.T, rec *vrec, sc *sessScenario, rng *vrng, hooks
 	x2 := &xfer{w: w, name: "server->client", from: server, to: client, stream: streamSC, total: sc.BytesSC, wsizes: sc.WSizes, rsizes: sc.RSizes, vec: sc.Vec, msgMode: !sc.CfgS.Stream, mss: mssS}
 	x2.start()
 	res.xs = []*xfer{x1, x2}
-	if hooks != nil {
-		hooks(w, client, server)
+	if hooks.post != nil {
+		hooks.post(w, client, server)
 	}
 	// periodic occupancy monitor
 	stopMon := make(chan struct{})
@@ -812,6 +848,9 @@ func runSessScenario(t *testing.T, rec *vrec, sc *sessScenario, rng *vrng, hooks
 		}
 	}
 	close(stopMon)
+	if hooks.end != nil {
+		hooks.end(w, client, server)
+	}
 	snmp := DefaultSnmp.Copy()
 	res.fecRecovered = snmp.FECRecovered - w.snmp0.FECRecovered
 	res.nontrivial = w.hub.nDropped.Load() > 0 && x1.reads.Load()+x2.reads.Load() >= 10
@@ -822,9 +861,11 @@ func runSessScenario(t *testing.T, rec *vrec, sc *sessScenario, rng *vrng, hooks
 	w.mu.Unlock()
 	if fc != nil {
 		fc.finish(x1.written.Load(), res.completed)
+		res.maxRunC = fc.longestRun()
 	}
 	if fs != nil {
 		fs.finish(x2.written.Load(), res.completed)
+		res.maxRunS = fs.longestRun()
 	}
 	client.Close()
 	server.Close()
